@@ -274,6 +274,7 @@ func runC11(w *vio.Writer, rep *vio.Report, seed int64, nh, steps, nq int, only 
 			continue
 		}
 		db, s1 := setup(tabs)
+		apiPrepared = map[string]bool{}
 		s2 := db.NewSession()
 		s3 := db.NewSession()
 		texts := make([]string, len(qs))
@@ -391,6 +392,8 @@ func pureQueries(w *vio.Writer, rep *vio.Report, seed int64) {
 	rep.Extra["pure_queries"] = len(qs)
 }
 
+var apiPrepared = map[string]bool{}
+
 // execBound runs a statement through Engine.QueryWithBindings (the path of the binary protocol).
 func execBound(db *eng.DB, s *eng.Session, text string, vals []Value) (res eng.Result) {
 	defer func() {
@@ -398,6 +401,9 @@ func execBound(db *eng.DB, s *eng.Session, text string, vals []Value) (res eng.R
 			res = eng.Result{Kind: "panic", Msg: fmt.Sprint(r), Rows: [][]Value{}}
 		}
 	}()
+	if os.Getenv("VERIF_SHOW_SQL") != "" {
+		fmt.Fprintf(os.Stderr, "[s%d] BOUND %s %v\n", s.ID, text, vals)
+	}
 	ctx := s.Ctx()
 	bindings := map[string]sqlparser.Expr{}
 	for i, v := range vals {
@@ -416,8 +422,14 @@ func execBound(db *eng.DB, s *eng.Session, text string, vals []Value) (res eng.R
 		}
 		bindings[fmt.Sprintf("v%d", i+1)] = e
 	}
-	if _, err := db.Engine.PrepareQuery(ctx, text); err != nil {
-		return eng.Result{Kind: "err", Msg: err.Error(), Rows: [][]Value{}}
+	// like a client of the binary protocol: COM_STMT_PREPARE once per statement text and session,
+	// COM_STMT_EXECUTE many times
+	key := fmt.Sprintf("%d|%s", s.ID, text)
+	if !apiPrepared[key] {
+		apiPrepared[key] = true
+		if _, err := db.Engine.PrepareQuery(ctx, text); err != nil {
+			return eng.Result{Kind: "err", Msg: err.Error(), Rows: [][]Value{}}
+		}
 	}
 	sch, iter, _, err := db.Engine.QueryWithBindings(ctx, text, nil, bindings, nil)
 	if err != nil {
